@@ -517,6 +517,10 @@ class ExprMixin:
             if cont.kind == 'dict':
                 return z3.Select(cont.term, self.zs.lift(x, cont.term.sort().domain()))
             cont = cont.term
+        if isinstance(cont, VObj) and (isinstance(x, str) or z3.is_string(x)):
+            # membership of a string in an opaque container (PurePath.parts ...): an uninterpreted predicate
+            self.assumptions.add('`s in <opaque object>` is an uninterpreted predicate of the object and the string')
+            return self.ufun('obj_contains_str', cont.term.sort(), z3.StringSort(), z3.BoolSort())(cont.term, self.zs.lift(x, z3.StringSort()))
         if not is_sym(cont) and not contains_sym(cont):
             if not is_sym(x):
                 return x in cont
